@@ -195,3 +195,91 @@ Print Assumptions C07_modeltrain_forced_app_when_cut_agrees.
 Print Assumptions C07_modeltrain_forced_no_feedback.
 Print Assumptions C07_modeltrain_misaligned_refuted.
 Print Assumptions C07_modeltrain_forced_refuted.
+
+
+(* ==================================================================================================================
+   Q-to-R bridge for the framework model (proofs/QR_bridge_Model.v).
+   The theorems above hold for every [Num] instance, in particular R; the correspondence run of C07 executes the shared
+   runner run/RunModel.v ([chk_hist_both]: model/ModelSem.v and model/ProxySem.v with the node kinds of model/Kinds.v) at
+   F := Q.  For rational parameters and data: a run, a call, any sequence of runs and calls (a chunking) executed at Q and
+   then embedded with Q2R is the same history executed at R on the embedded data - same success flags, embedded outputs,
+   point-wise embedded environments.  No functional extensionality, no shape hypothesis, no side condition.
+   After this block the cone of this file imports Reals; the theorems above are unaffected (their Print Assumptions
+   output is unchanged). *)
+From Coq Require Import Reals Qreals.
+From RV Require Import base.NumHom model.ProxySem run.RunModel proofs.QR_bridge_Model.
+
+(* Model.run / Node.run on one sequence, any flags (C07 uses stateful=True, reset=False, no from_state: C07_run_op_plain) *)
+Theorem C07_Qrun_op_embeds_in_Rrun_op (m : @model Q) (mR : @model R) stateful reset from fromR steps stepsR (e : @env Q) (eR : @env R) :
+  m_rel Q2R m mR -> opt_rel Q2R from fromR -> steps_rel Q2R steps stepsR -> env_rel Q2R e eR ->
+  let r := run_op m stateful reset from steps e in
+  let rR := run_op mR stateful reset fromR stepsR eR in
+  env_rel Q2R (fst (fst r)) (fst (fst rR)) /\ snd (fst rR) = map qm2r (snd (fst r)) /\ snd rR = snd r.
+Proof. exact (run_op_rel Q2R m mR stateful reset from fromR steps stepsR e eR). Qed.
+
+(* the same on the low-level mechanism: Model.run and Model.call with explicit proxies and clamps *)
+Theorem C07_Qlowlevel_run_and_call_embed (m : @model Q) (mR : @model R) stateful reset from fromR (el : @lenv Q) (elR : @lenv R) :
+  m_rel Q2R m mR -> opt_rel Q2R from fromR -> lenv_rel Q2R el elR ->
+  (forall steps stepsR, steps_rel Q2R steps stepsR ->
+     let r := run_op_ll m stateful reset from steps el in
+     let rR := run_op_ll mR stateful reset fromR stepsR elR in
+     lenv_rel Q2R (fst (fst r)) (fst (fst rR)) /\ snd (fst rR) = map qm2r (snd (fst r)) /\ snd rR = snd r) /\
+  (forall ext extR forced forcedR, opt_rel Q2R ext extR -> opt_rel Q2R forced forcedR ->
+     let r := call_op_ll m stateful reset from ext forced el in
+     let rR := call_op_ll mR stateful reset fromR extR forcedR elR in
+     lenv_rel Q2R (fst (fst r)) (fst (fst rR)) /\ snd (fst rR) = map qm2r (snd (fst r)) /\ snd rR = snd r).
+Proof.
+  intros Hm Hf He. split; intros.
+  - apply (run_op_ll_rel Q2R); assumption.
+  - apply (call_op_ll_rel Q2R); assumption.
+Qed.
+(* [lenv_rel], spelled out: state, hidden memory, proxy and clamp of every node are embedded entry-wise *)
+Theorem C07_lenv_rel_spelled (el : @lenv Q) (elR : @lenv R) :
+  lenv_rel Q2R el elR <->
+  forall n, elR n = mkLN (qv2r (lst (el n))) (qm2r (lhid (el n))) (option_map qv2r (proxy (el n))) (option_map qv2r (clamp (el n))).
+Proof. exact (iff_refl _). Qed.
+
+(* one operation of the scenario language (OpRun / OpCall / OpReset) on both models *)
+Theorem C07_Qoperation_embeds_in_Roperation (nodes : list snode) (models : list smodel) (o : op) :
+  (forall (e : @env Q) (eR : @env R), env_rel Q2R e eR ->
+     let r := run_one nodes models o e in let rR := run_oneR nodes models o eR in
+     env_rel Q2R (fst (fst r)) (fst (fst rR)) /\ snd (fst rR) = map qm2r (snd (fst r)) /\ snd rR = snd r) /\
+  (forall (el : @lenv Q) (elR : @lenv R), lenv_rel Q2R el elR ->
+     let r := run_one_ll nodes models o el in let rR := run_oneR_ll nodes models o elR in
+     lenv_rel Q2R (fst (fst r)) (fst (fst rR)) /\ snd (fst rR) = map qm2r (snd (fst r)) /\ snd rR = snd r).
+Proof. exact (conj (run_one_rel nodes models o) (run_one_ll_rel nodes models o)). Qed.
+
+(* the verdict of the correspondence runner is a statement about the R-instance history *)
+Theorem C07_chk_hist_both_is_about_R_model (nodes : list snode) (models : list smodel) (l : list (op * obs)) :
+  chk_hist_both nodes models l = true ->
+  topo_ok models = true /\ hist_okR nodes models l (init_envR nodes) /\ hist_okR_ll nodes models l (init_envR_ll nodes).
+Proof. exact (chk_hist_both_is_about_R_model nodes models l). Qed.
+
+(* non-vacuity: accumulator -> Reservoir (external equation, hard-tanh) -> NVAR (delay 2, order 2); a run of two timesteps
+   followed by a call: the runner answers true on the exact values, hence so does the R-model history *)
+Definition exB7_nodes : list snode :=
+  [mkSN 0 KAcc None 1 [];
+   mkSN 1 (KResExt [[1#2]] [[1#1]] [1#4] [1#2] AHardTanh)%Q None 1 [];
+   mkSN 2 (KNvar 2 1) None 5 [[0#1]; [0#1]]%Q].
+Definition exB7_models : list smodel := [mkSM [0; 1; 2] [(1, [0]); (2, [1])] [2]].
+Definition exB7_hist : list (op * obs) :=
+  [(OpRun 0 true false [] [[(0%nat, [1#1])]; [(0%nat, [1#2])]]%Q false [],
+    mkObs true [[[5#8; 0#1; 25#64; 0#1; 0#1]]; [[1#1; 5#8; 1#1; 5#8; 25#64]]]%Q
+          [(0%nat, [3#2]); (1%nat, [1#1]); (2%nat, [1#1; 5#8; 1#1; 5#8; 25#64])]%Q (Some true));
+   (OpCall 0 true false [] [(0%nat, [-2#1])]%Q [],
+    mkObs true [[[51#64; 1#1; 2601#4096; 51#64; 1#1]]]%Q
+          [(0%nat, [-1#2]); (1%nat, [51#64]); (2%nat, [51#64; 1#1; 2601#4096; 51#64; 1#1])]%Q (Some true))].
+Example C07_bridge_example :
+  chk_hist_both exB7_nodes exB7_models exB7_hist = true /\
+  hist_okR exB7_nodes exB7_models exB7_hist (init_envR exB7_nodes) /\
+  hist_okR_ll exB7_nodes exB7_models exB7_hist (init_envR_ll exB7_nodes).
+Proof.
+  assert (E : chk_hist_both exB7_nodes exB7_models exB7_hist = true) by (vm_compute; reflexivity).
+  split; [exact E | apply (C07_chk_hist_both_is_about_R_model _ _ _ E)].
+Qed.
+
+Print Assumptions C07_Qrun_op_embeds_in_Rrun_op.
+Print Assumptions C07_Qlowlevel_run_and_call_embed.
+Print Assumptions C07_lenv_rel_spelled.
+Print Assumptions C07_Qoperation_embeds_in_Roperation.
+Print Assumptions C07_chk_hist_both_is_about_R_model.
